@@ -86,7 +86,11 @@ def render_job(job):
         cmd = CMDS[item["cmd"] % len(CMDS)].format(a=item["a"], b=item["b"], c=item["a"] % 4)
         if item.get("inline"):
             parts = cmd.split(" ", 1)
-            cmd = parts[0] + " (" + item["inline"] + ")" + (" " + parts[1] if len(parts) > 1 else "")
+            if item.get("indent") and len(item["inline"]) > 1:
+                # CNC style: the line opens with the parenthesised comment
+                cmd = "(" + item["inline"] + ") " + cmd
+            else:
+                cmd = parts[0] + " (" + item["inline"] + ")" + (" " + parts[1] if len(parts) > 1 else "")
         if item.get("trail") is not None:
             cmd = cmd + " ; " + item["trail"]
         lines.append(("  " if item.get("indent") else "") + cmd)
